@@ -377,3 +377,36 @@ def inline_simple_calls(mod: "ModuleInfo", expr: ast.AST, depth: int = 2) -> ast
         out = Inl().visit(out)
     ast.fix_missing_locations(out)
     return out
+
+
+def rename_locals(func_node: ast.AST, mapping: Dict[str, str]) -> ast.AST:
+    """Deep copy of a function in which the local names in `mapping` are replaced (positions kept).  Used to bring a
+    function whose locals were discovered *by role* (what they are initialised from / how they are used) back to the
+    canonical names the rules are written in, so that no rule depends on what a local happens to be called."""
+    import copy
+    node = copy.deepcopy(func_node)
+    if not mapping or all(k == v for k, v in mapping.items()):
+        return node
+    clash = set(mapping.values()) - set(mapping)
+    present = {n.id for n in ast.walk(node) if isinstance(n, ast.Name)}
+    if clash & present:
+        raise AnalysisError("cannot canonicalise locals: %s already used for something else" % sorted(clash & present))
+    for n in ast.walk(node):
+        if isinstance(n, ast.Name) and n.id in mapping:
+            n.id = mapping[n.id]
+    return node
+
+
+def discover_locals(func_node: ast.AST, roles) -> Dict[str, str]:
+    """roles: [(canonical name, predicate(stmt) -> Optional[actual name])]; each predicate is tried on every statement
+    (and every For target) of the function, first hit wins.  -> {actual: canonical} for the roles found."""
+    out: Dict[str, str] = {}
+    for canon, pred in roles:
+        for st in ast.walk(func_node):
+            if isinstance(st, (ast.Assign, ast.AugAssign, ast.For)):
+                got = pred(st)
+                if got:
+                    if got not in out:
+                        out[got] = canon
+                    break
+    return out
